@@ -1253,6 +1253,9 @@ func genMutable(ctx TaggedStructContext, genMethod fp.Set[string]) fp.Set[string
 	if ts.Info.Method.Get("AsMutable").IsEmpty() {
 
 		fields := iterator.Map(iterator.FromSeq(allFields), func(f metafp.StructField) string {
+			if f.Embedded {
+				return fmt.Sprintf(`%s : r.%s`, f.Name, f.Name)
+			}
 			return fmt.Sprintf(`%s : r.%s`, publicName(f.Name), f.Name)
 		}).MakeString(",\n")
 
@@ -1273,6 +1276,9 @@ func genMutable(ctx TaggedStructContext, genMethod fp.Set[string]) fp.Set[string
 	if !isMethodDefined(workingPackage, mutableTypeName, "AsImmutable") {
 
 		fields := iterator.Map(iterator.FromSeq(allFields), func(f metafp.StructField) string {
+			if f.Embedded {
+				return fmt.Sprintf(`%s : r.%s`, f.Name, f.Name)
+			}
 			return fmt.Sprintf(`%s : r.%s`, f.Name, publicName(f.Name))
 		}).MakeString(",\n")
 
